@@ -306,7 +306,7 @@ func (x *Exec) invCtx(fr *Frame, lr *loopRec, st *State) *SpecCtx {
 			vars["old_"+k] = v
 		}
 	}
-	return &SpecCtx{x: x, st: st, old: x.entry, vars: vars, fr: fr, loopPos: lr.pos, pkg: pkgOf(fr.fn)}
+	return &SpecCtx{x: x, st: st, old: x.entry, vars: vars, fr: fr, loopPos: lr.pos, pkg: pkgOf(fr.fn), loopHead: lr.head}
 }
 
 func pkgOf(fn *ssa.Function) *types.Package {
@@ -374,8 +374,16 @@ func (x *Exec) enterLoop(fr *Frame, lr *loopRec, st *State) *State {
 		nh := x.S.Const("hh", x.te.HeapSort(t))
 		st.heaps[k] = nh
 		x.heapTypes[k] = t
-		// automatic frame invariant: the skolem region keeps its entry contents
+		// automatic frame invariant: every region that existed at function entry
+		// and is not in the modifies clause keeps its entry contents (proved at
+		// each back edge for the arbitrary region rf)
 		x.assume(st, x.frameFact(nh, t))
+		q := x.S.Fresh("qr")
+		conds := []string{"(<= 1 " + q + ")", "(< " + q + " " + x.entry.nr + ")"}
+		for _, mr := range x.modRegs {
+			conds = append(conds, "(not (= "+q+" "+mr+"))")
+		}
+		x.assume(st, fmt.Sprintf("(forall ((%s Int)) (! (=> %s (= (select %s %s) (select %s %s))) :pattern ((select %s %s))))", q, And(conds...), nh, q, x.heap0(t), q, nh, q))
 	}
 	// heaps in which the loop only initialises regions it allocates itself:
 	// every region that existed before the loop keeps its contents
@@ -430,6 +438,7 @@ func (x *Exec) frameFact(h string, t types.Type) string {
 // autoInvariants adds facts that hold for every Go loop of a recognised shape
 // (range-index loops: -1 <= rangeindex < len).
 func (x *Exec) autoInvariants(fr *Frame, lr *loopRec, st *State, pre *State) {
+	x.monotoneInvariants(fr, lr, st, pre)
 	b := lr.head
 	if b.Comment != "rangeindex.loop" {
 		return
@@ -502,3 +511,77 @@ func (x *Exec) emitNamed(st *State, name, kind string, fr *Frame, pos token.Pos,
 }
 
 var _ = strings.Contains
+
+// monotoneInvariants: an integer local that the loop only ever changes by
+// "v = v + c" with a positive (negative) constant c never drops below (rises
+// above) its value at loop entry.  Sound by induction on the iterations; the
+// overflow side condition is the A-ovf assumption / ovf obligation of the
+// addition itself.
+func (x *Exec) monotoneInvariants(fr *Frame, lr *loopRec, st *State, pre *State) {
+	type dir struct{ up, down, other bool }
+	dirs := map[*ssa.Alloc]*dir{}
+	for b := range lr.blocks {
+		for _, in := range b.Instrs {
+			s, ok := in.(*ssa.Store)
+			if !ok {
+				continue
+			}
+			a, ok := s.Addr.(*ssa.Alloc)
+			if !ok || !isInteger(elemOfPtr(a.Type())) {
+				if a2, ok2 := addrRoot(s.Addr).(*ssa.Alloc); ok2 {
+					if d := dirs[a2]; d != nil {
+						d.other = true
+					} else {
+						dirs[a2] = &dir{other: true}
+					}
+				}
+				continue
+			}
+			d := dirs[a]
+			if d == nil {
+				d = &dir{}
+				dirs[a] = d
+			}
+			bo, ok := s.Val.(*ssa.BinOp)
+			if !ok || (bo.Op != token.ADD && bo.Op != token.SUB) {
+				d.other = true
+				continue
+			}
+			ld, ok := bo.X.(*ssa.UnOp)
+			cst, ok2 := bo.Y.(*ssa.Const)
+			if !ok || !ok2 || ld.Op != token.MUL || ld.X != a || cst.Value == nil {
+				d.other = true
+				continue
+			}
+			c := cst.Int64()
+			if bo.Op == token.SUB {
+				c = -c
+			}
+			switch {
+			case c > 0:
+				d.up = true
+			case c < 0:
+				d.down = true
+			}
+		}
+	}
+	if lr.dynCall {
+		return // closures might store to captured locals
+	}
+	for a, d := range dirs {
+		if d.other || d.up == d.down {
+			continue
+		}
+		k := cellKey{fr.id, a}
+		cur, ok1 := st.cells[k]
+		old, ok2 := pre.cells[k]
+		if !ok1 || !ok2 || cur.S == "" || old.S == "" || cur.DP != nil || old.DP != nil {
+			continue
+		}
+		if d.up {
+			x.assume(st, "(>= "+cur.S+" "+old.S+")")
+		} else {
+			x.assume(st, "(<= "+cur.S+" "+old.S+")")
+		}
+	}
+}
